@@ -1,17 +1,21 @@
-import SurfProofs.Lemmas.C01Frame
+import SurfProofs.Lemmas.C01General
 /-!
 # C01 — incremental rendering always leaves the terminal showing the drawn surface
 
 Model of the code: `SurfModel.Renderer` (`new`, `clear`, `frame` with both passes and the image pass).
 Reference terminal and specification: `SurfModel.Screen` (`exec`, `display`, `ScreenEq`, `WellPlaced`).
 
-`Dom` is the domain on which the theorems below are proved.
+Proved for ALL terminal sizes, ALL parameter functions satisfying `ParamsOk`, ALL histories of frames,
+skipped frames, `clear()` and re-creations whose frames are `WellPlaced` (narrow and wide characters
+anywhere — also hidden under wide characters or images —, three kinds of cells, any faces; image areas
+inside the terminal, pairwise disjoint, not touching a wide character).  Outside `WellPlaced` the code is
+known to fail (known finding C01-img); the statement on the whole domain is kept as `C01_history_full`.
 -/
 namespace SurfProofs.C01
 open SurfModel.Screen SurfModel.Renderer
 
 /-- domain of the proved theorems -/
-def Dom (P : Params) (H W : Nat) (s : Surface) : Prop := CharDom P H W s
+def Dom (P : Params) (H W : Nat) (s : Surface) : Prop := WellPlaced P H W s
 
 /-- the terminal is not as large as the "impossible" position the second pass starts its cursor
 belief with (`Position::new(123_456, 654_123)`) -/
@@ -22,17 +26,23 @@ def AllDom (P : Params) (h w : Nat) (steps : List Step) : Prop := ∀ s, Step.fr
 
 /-- The specification is not vacuous: outside image areas and shadows of wide characters `display`
 shows every cell's own character in the cell's own face; the cell after a displayed wide character
-shows its right half. -/
-theorem C01_display_shows (P : Params) (H W : Nat) (s : Surface) (r c : Nat)
-    (hcov : coverOf P H W s (r, c) = none) :
-    (shadowed P s r c = false → ∀ ch, (s r c).kind = .chr ch →
+shows its right half; inside the area of an image cell `q` it shows a blank in the face of `q`; the
+placements are exactly the image (and glyph) cells. -/
+theorem C01_display_shows (P : Params) (H W : Nat) (s : Surface) (r c : Nat) :
+    (coverOf P H W s (r, c) = none → shadowed P s r c = false → ∀ ch, (s r c).kind = .chr ch →
       (display P H W s).grid r c = .glyph ch (s r c).face) ∧
-    (shadowed P s r c = true → (display P H W s).grid r c = .cont) := by
-  constructor
-  · intro hs ch hk
+    (coverOf P H W s (r, c) = none → shadowed P s r c = true → (display P H W s).grid r c = .cont) ∧
+    (∀ q, coverOf P H W s (r, c) = some q → (display P H W s).grid r c = .glyph 32 (s q.1 q.2).face) ∧
+    (r < H → c < W → (display P H W s).place r c = imgOf P (s r c)) := by
+  refine ⟨?_, ?_, ?_, ?_⟩
+  · intro hcov hs ch hk
     simp [display, displayCell, hcov, hs, hk]
-  · intro hs
+  · intro hcov hs
     simp [display, displayCell, hcov, hs]
+  · intro q hcov
+    simp [display, displayCell, hcov]
+  · intro hr hc
+    simp [display, hr, hc]
 
 /-- One frame.  If renderer state and terminal fit together (`Rel`: every cell not marked `Damaged`
 shows `display` of the back surface, so do the placements), then after the terminal has executed the
@@ -41,13 +51,13 @@ theorem C01_frame (P : Params) (hP : ParamsOk P) (R : State) (scr : Screen) (s :
     (hsz : SizeOk R.h R.w) (hs : Dom P R.h R.w s) (hrel : Rel P R scr) :
     Rel P (frame P R s).state (execAll P scr (frame P R s).cmds) ∧
     ScreenEq R.h R.w (execAll P scr (frame P R s).cmds) (display P R.h R.w s) :=
-  frame_chars P hP R scr s hsz hs hrel
+  frame_general P hP R scr s hsz hs hrel
 
 /-- A fresh renderer on a blank terminal: the first frame equals painting from scratch. -/
 theorem C01_fresh (P : Params) (hP : ParamsOk P) (h w : Nat) (hsz : SizeOk h w) (s : Surface)
     (hs : Dom P h w s) :
     ScreenEq h w (execAll P blank (frame P (new h w true) s).cmds) (display P h w s) :=
-  (C01_frame P hP (new h w true) blank s hsz hs (rel_new_blank P hP h w true)).2
+  (C01_frame P hP (new h w true) blank s hsz hs (relG_new_blank P hP h w true)).2
 
 theorem rel_step (P : Params) (hP : ParamsOk P) (h w : Nat) (hsz : SizeOk h w) (x : State × Screen)
     (hx : Rel P x.1 x.2 ∧ x.1.h = h ∧ x.1.w = w) (st : Step) (hd : ∀ s, st = Step.frame s → Dom P h w s) :
@@ -59,8 +69,8 @@ theorem rel_step (P : Params) (hP : ParamsOk P) (h w : Nat) (hsz : SizeOk h w) (
     rw [← hh, ← hw] at hs hsz
     exact ⟨(C01_frame P hP x.1 x.2 s hsz hs hrel).1, hh, hw⟩
   | skip => exact ⟨by simpa [runStep, stepCmds, execAll_nil] using hrel, hh, hw⟩
-  | clear => exact ⟨rel_clear P hP x.1 x.2 hrel, hh, hw⟩
-  | recreate => exact ⟨rel_recreate P hP x.1 x.2 hrel, hh, hw⟩
+  | clear => exact ⟨relG_clear P hP x.1 x.2 hrel, hh, hw⟩
+  | recreate => exact ⟨relG_recreate P hP x.1 x.2 hrel, hh, hw⟩
 
 theorem rel_steps (P : Params) (hP : ParamsOk P) (h w : Nat) (hsz : SizeOk h w) (steps : List Step)
     (hd : AllDom P h w steps) (x : State × Screen) (hx : Rel P x.1 x.2 ∧ x.1.h = h ∧ x.1.w = w) :
@@ -74,11 +84,11 @@ theorem rel_steps (P : Params) (hP : ParamsOk P) (h w : Nat) (hsz : SizeOk h w) 
     · intro s hs; exact hd s (List.mem_cons_of_mem _ hs)
     · exact rel_step P hP h w hsz x hx st (fun s e => hd s (by rw [e]; exact List.mem_cons_self))
 
-/-- Histories, proved on `Dom`.  Start from a renderer created with `clear = clear0` on a terminal that
-fits it (blank, or anything well formed without image placements when `clear0 = true`); let the
-terminal execute exactly the commands of any sequence of frames, skipped frames, `clear()` and
-re-creations.  After EVERY rendered frame the terminal shows `display` of the surface drawn for that
-frame. -/
+/-- Histories, proved on `Dom` (= `WellPlaced`).  Start from a renderer created with `clear = clear0`
+on a terminal that fits it (`C01_start_blank`, `C01_start_any`); let the terminal execute exactly the
+commands of any sequence of frames, skipped frames, `clear()` and re-creations.  After EVERY rendered
+frame the terminal shows `display` of the surface drawn for that frame: characters, faces and image
+placements, cell for cell. -/
 theorem C01_history_partial (P : Params) (hP : ParamsOk P) (h w : Nat) (hsz : SizeOk h w) (clear0 : Bool)
     (scr0 : Screen) (h0 : Rel P (new h w clear0) scr0) (steps : List Step) (hd : AllDom P h w steps)
     (pre post : List Step) (s : Surface) (hsplit : steps = pre ++ Step.frame s :: post) :
@@ -93,13 +103,14 @@ theorem C01_history_partial (P : Params) (hP : ParamsOk P) (h w : Nat) (hsz : Si
   rw [hh, hw] at this
   exact this
 
-/-- the two ways a history can start -/
+/-- the two ways a history can start: a blank terminal (any `clear0`) … -/
 theorem C01_start_blank (P : Params) (hP : ParamsOk P) (h w : Nat) (clear0 : Bool) :
-    Rel P (new h w clear0) blank := rel_new_blank P hP h w clear0
+    Rel P (new h w clear0) blank := relG_new_blank P hP h w clear0
 
+/-- … or, with `clear0 = true`, a terminal showing anything (well formed, no image placements) -/
 theorem C01_start_any (P : Params) (hP : ParamsOk P) (h w : Nat) (scr0 : Screen) (hwf : WF P scr0)
     (hpl : ∀ r c, scr0.place r c = none) : Rel P (new h w true) scr0 :=
-  rel_damaged P hP h w scr0 hwf hpl (new h w true) ⟨rfl, rfl⟩ rfl (by simp [new])
+  relG_damaged P hP scr0 hwf hpl (new h w true) rfl (by simp [new])
 
 /-- A forced clear makes the next frame repaint everything regardless of what the terminal showed
 before: whatever the renderer state `R` was and whatever (well-formed, image-free) content `scr` the
@@ -109,20 +120,20 @@ theorem C01_clear_repaints (P : Params) (hP : ParamsOk P) (R : State) (hsz : Siz
     (hwf : WF P scr) (hpl : ∀ r c, scr.place r c = none) (s : Surface) (hs : Dom P R.h R.w s) :
     ScreenEq R.h R.w (execAll P scr (frame P (clear R) s).cmds) (display P R.h R.w s) ∧
     ScreenEq R.h R.w (execAll P scr (frame P (new R.h R.w true) s).cmds) (display P R.h R.w s) :=
-  ⟨(C01_frame P hP (clear R) scr s hsz hs
-      (rel_damaged P hP R.h R.w scr hwf hpl (clear R) ⟨rfl, rfl⟩ rfl rfl)).2,
+  ⟨(C01_frame P hP (clear R) scr s hsz hs (relG_damaged P hP scr hwf hpl (clear R) rfl rfl)).2,
    (C01_frame P hP (new R.h R.w true) scr s hsz hs
-      (rel_damaged P hP R.h R.w scr hwf hpl (new R.h R.w true) ⟨rfl, rfl⟩ rfl (by simp [new]))).2⟩
+      (relG_damaged P hP scr hwf hpl (new R.h R.w true) rfl (by simp [new]))).2⟩
 
-/-- `clear()` itself leaves a terminal without image placements (so the hypothesis of
-`C01_clear_repaints` is met by what the history produced) -/
-theorem C01_clear_erases (P : Params) (hP : ParamsOk P) (R : State) (scr : Screen) (hrel : Rel P R scr) :
+/-- `clear()` removes every image placement and leaves the characters alone (so the hypotheses of
+`C01_clear_repaints` are met by what a history produced) -/
+theorem C01_clear_erases (P : Params) (R : State) (scr : Screen) (hrel : Rel P R scr) :
+    (execAll P scr (clearCmds R)).grid = scr.grid ∧
     ∀ r c, (execAll P scr (clearCmds R)).place r c = none :=
-  (rel_clear P hP R scr hrel).no_place
+  exec_clear P R scr hrel
 
 /-- The property on its whole stated domain (every frame draws printable narrow / wide characters,
-wide ones not in the last column, and image or glyph cells anywhere).  NOT proved: outside
-`WellPlaced` the code is known to fail (known finding C01-img). -/
+wide ones not in the last column, image or glyph cells anywhere).  NOT proved: outside `WellPlaced`
+the code is known to fail (known finding C01-img). -/
 def FullDom (P : Params) (H W : Nat) (s : Surface) : Prop :=
   (∀ r c ch, r < H → c < W → (s r c).kind = .chr ch → P.width ch = 1 ∨ P.width ch = 2) ∧
   (∀ r c, r < H → c < W → isWide P (s r c) = true → c + 1 < W)
@@ -137,11 +148,12 @@ def C01_history_full : Prop :=
 
 /-! ### the hypotheses are satisfiable, non-trivially -/
 
-/-- a `unicode-width`-like parameter: NUL has no width, U+4E16 is wide, everything else narrow -/
+/-- a `unicode-width`-like parameter: NUL has no width, U+4E16 is wide, everything else narrow;
+images are 1 × 2 cells except image 7 (2 × 2) -/
 def exP : Params :=
   { width := fun ch => if ch = 0 then 0 else if ch = 19990 then 2 else 1
-    size := fun _ => (1, 2)
-    raster := fun _ _ => 0 }
+    size := fun i => if i = 7 then (2, 2) else (1, 2)
+    raster := fun _ _ => 3 }
 
 theorem exP_ok : ParamsOk exP := by
   refine ⟨?_, by simp [exP], by simp [exP]⟩
@@ -149,60 +161,40 @@ theorem exP_ok : ParamsOk exP := by
   · omega
   · split <;> omega
 
-/-- 2 × 4 surface: a wide character followed by a (hidden) cell, narrow characters in three faces -/
+/-- 3 × 6 surface: a wide character with a hidden cell behind it, a 2 × 2 image with characters hidden
+under it, a glyph (drawn as a 1 × 2 image), narrow characters in three faces -/
 def exSurf : Surface := fun r c =>
   if r = 0 ∧ c = 0 then ⟨1, .chr 19990⟩
   else if r = 0 ∧ c = 1 then ⟨2, .chr 120⟩
-  else if r = 1 ∧ c = 3 then ⟨2, .chr 97⟩
+  else if r = 0 ∧ c = 3 then ⟨2, .img 7⟩
+  else if r = 1 ∧ c = 4 then ⟨1, .chr 98⟩
+  else if r = 2 ∧ c = 0 then ⟨1, .gly 5⟩
+  else if r = 2 ∧ c = 5 then ⟨2, .chr 97⟩
   else ⟨0, .chr 32⟩
 
-theorem charDom_of_chars (P : Params) (H W : Nat) (s : Surface)
-    (h1 : ∀ r c, r < H → c < W → ∃ ch, (s r c).kind = .chr ch ∧ (P.width ch = 1 ∨ P.width ch = 2))
-    (h2 : ∀ r c, r < H → c < W → isWide P (s r c) = true → c + 1 < W) : CharDom P H W s := by
-  have hi : ∀ r c, r < H → c < W → imgOf P (s r c) = none := by
-    intro r c hr hc; obtain ⟨ch, hk, _⟩ := h1 r c hr hc; simp [imgOf, hk]
-  refine ⟨⟨?_, h2, ?_, ?_, ?_⟩, fun r c hr hc => (h1 r c hr hc).imp fun _ h => h.1⟩
-  · intro r c ch hr hc hk
-    obtain ⟨ch', hk', hw⟩ := h1 r c hr hc
-    rw [hk] at hk'; cases hk'; exact hw
-  · intro r c i hr hc h; rw [hi r c hr hc] at h; cases h
-  · intro q q' p hq1 hq2 _ _ h; simp [covers, hi q.1 q.2 hq1 hq2] at h
-  · intro q r c hq1 hq2 _ _ _; simp [covers, hi q.1 q.2 hq1 hq2]
-
-theorem exSurf_dom : Dom exP 2 4 exSurf := by
-  apply charDom_of_chars
-  · intro r c hr hc
-    have : r = 0 ∨ r = 1 := by omega
-    have : c = 0 ∨ c = 1 ∨ c = 2 ∨ c = 3 := by omega
-    rcases ‹r = 0 ∨ r = 1› with rfl | rfl <;> rcases ‹c = 0 ∨ c = 1 ∨ c = 2 ∨ c = 3› with rfl | rfl | rfl | rfl <;>
-      simp [exSurf, exP]
-  · intro r c hr hc hw
-    have : r = 0 ∨ r = 1 := by omega
-    have : c = 0 ∨ c = 1 ∨ c = 2 ∨ c = 3 := by omega
-    rcases ‹r = 0 ∨ r = 1› with rfl | rfl <;> rcases ‹c = 0 ∨ c = 1 ∨ c = 2 ∨ c = 3› with rfl | rfl | rfl | rfl <;>
-      simp [exSurf, exP, isWide] at hw ⊢
+theorem exSurf_dom : Dom exP 3 6 exSurf := wellPlacedB_sound exP 3 6 exSurf (by decide)
 
 /-- `C01_fresh`, `C01_frame`, `C01_clear_repaints`: a concrete surface of the domain -/
-example : ParamsOk exP ∧ SizeOk 2 4 ∧ Dom exP 2 4 exSurf ∧ Rel exP (new 2 4 true) blank :=
-  ⟨exP_ok, Or.inl (by omega), exSurf_dom, C01_start_blank exP exP_ok 2 4 true⟩
+example : ParamsOk exP ∧ SizeOk 3 6 ∧ Dom exP 3 6 exSurf ∧ Rel exP (new 3 6 true) blank :=
+  ⟨exP_ok, Or.inl (by omega), exSurf_dom, C01_start_blank exP exP_ok 3 6 true⟩
 
 /-- `C01_history_partial`: a history with every kind of step that meets the hypotheses -/
-example : AllDom exP 2 4 [.frame exSurf, .skip, .clear, .frame blankSurf, .recreate, .frame exSurf] := by
+example : AllDom exP 3 6 [.frame exSurf, .skip, .clear, .frame blankSurf, .recreate, .frame exSurf] := by
   intro s hs
   simp only [List.mem_cons, List.not_mem_nil, or_false] at hs
   rcases hs with h | h | h | h | h | h
   · cases h; exact exSurf_dom
   · cases h
   · cases h
-  · cases h; exact blank_charDom exP exP_ok 2 4
+  · cases h; exact blank_wp exP exP_ok 3 6
   · cases h
   · cases h; exact exSurf_dom
 
-/-- on that surface the specification really shows a wide character, its right half and the faces -/
-example : (display exP 2 4 exSurf).grid 0 0 = .glyph 19990 1 ∧ (display exP 2 4 exSurf).grid 0 1 = .cont ∧
-    (display exP 2 4 exSurf).grid 1 3 = .glyph 97 2 := by
-  have hc : ∀ p, coverOf exP 2 4 exSurf p = none :=
-    fun p => coverOf_none exP 2 4 exSurf p exSurf_dom.charSurf.imgOf_none
-  refine ⟨?_, ?_, ?_⟩ <;> simp only [display, displayCell, hc] <;> simp [shadowed, exSurf, exP, isWide]
+/-- on that surface the specification really shows a wide character, its right half, the blank area
+of the image in the image cell's face, the faces, and the two placements -/
+example : (display exP 3 6 exSurf).grid 0 0 = .glyph 19990 1 ∧ (display exP 3 6 exSurf).grid 0 1 = .cont ∧
+    (display exP 3 6 exSurf).grid 1 4 = .glyph 32 2 ∧ (display exP 3 6 exSurf).grid 2 5 = .glyph 97 2 ∧
+    (display exP 3 6 exSurf).place 0 3 = some 7 ∧ (display exP 3 6 exSurf).place 2 0 = some 3 := by
+  decide
 
 end SurfProofs.C01
